@@ -6,6 +6,8 @@ import expstage
 import maclib
 import vlib
 
+FIXED_REJECTED = ["v, S { a: }", "v, Some(_ { value: 42 })", "v, Some(>)", "v, E::V(0: 1, 0: 2)", "v, (1, _ { a: 1 })",
+                  "v, [1, =]", "v, #(1, .., 2)", "v, S { a: 1 } extra", "v, E::T(0.len(: 1)", "v, (*x: 1)"]
 FIXED = ["v, S { .. }", "v, E::V { .. }", "v, [1, .., 2]", "v, [..]", "v, m::S { a: _ { .. }, .. }"]
 
 
@@ -53,17 +55,38 @@ def run(res):
                 res.violation("failing-input", "the expansion depends on which invocations were expanded before it",
                               {"invocation": r.text, "after_history": expstage.maclib.text_of_tokens(r.tokens)[:2000],
                                "alone": expstage.maclib.text_of_tokens(alone[4])[:2000] if alone[0] == "ok" else alone[0]})
-    # rejected / panicking invocations interleaved: expand a few after a rejected one
-    inter = ["v, S { a: }", sample[0].text, "v, (1 +", sample[1].text, "v, E::V(0: 1, 0: 2)", sample[2].text] if len(sample) > 2 else []
-    if inter:
-        out = maclib.run_mac(inter)
-        for k in (1, 3, 5):
-            f = out[k].split("\t")
-            if f[0] != "ok" or f[4] != sample[(k - 1) // 2].tokens:
-                hist_bad += 1
-                res.violation("failing-input", "the expansion changed after a rejected invocation on the same thread",
-                              {"invocation": inter[k], "previous": inter[k - 1]})
-    res.streams["history"] = {"fresh_process_comparisons": len(sample), "after_rejected": 3 if inter else 0, "differences": hist_bad}
+    # rejected invocations interleaved: single-edit corruptions of corpus patterns (most are rejected, at
+    # every stage of parsing, including inside speculative look-ahead), each followed by a valid invocation
+    # whose expansion must be what it was under the other history
+    import corrupt
+    withnode = [r for r in oks if r.node is not None and "poff" in r.node.info]
+    srcs = rng.sample(withnode, min(len(withnode), 120 if res.tier == "quick" else 1200))
+    rejected = FIXED_REJECTED[:]
+    for r in srcs:
+        pat = r.text[r.node.info["poff"]:]
+        for kind, new in corrupt.corruptions(pat, rng, 2):
+            rejected.append("v, " + new)
+    inter = []
+    followers = []
+    for k, bad_inv in enumerate(rejected):
+        f = oks[(k * 7) % len(oks)]
+        inter += [bad_inv, f.text]
+        followers.append(f)
+    out = maclib.run_mac(inter)
+    n_rej = 0
+    for k, f in enumerate(followers):
+        prev = out[2 * k].split("\t")[0]
+        n_rej += prev != "ok"
+        g = out[2 * k + 1].split("\t")
+        if g[0] != "ok" or g[4] != f.tokens:
+            hist_bad += 1
+            if hist_bad <= 3:
+                res.violation("failing-input", "the expansion of a valid invocation changed after a rejected invocation was "
+                              "expanded on the same thread (%s)" % ("now " + g[0] if g[0] != "ok" else "different tokens"),
+                              {"invocation": inter[2 * k + 1], "previous_invocation": inter[2 * k], "previous_outcome": prev,
+                               "difference": maclib.first_diff(f.tokens, g[4]) if g[0] == "ok" else g[1][:300]})
+    res.streams["history"] = {"fresh_process_comparisons": len(sample), "after_corrupted_invocations": len(followers),
+                              "of_which_rejected": n_rej, "differences": hist_bad}
     expstage.report_disagreement(res, name, dis, failing > 0 or hist_bad > 0)
     if not dis and not failing and not hist_bad:
         res.discharged.append(name)
